@@ -261,4 +261,185 @@ def run {D : Type} [LT D] [DecidableRel (α := D) (· < ·)] (cfg : Cfg) : List 
     | .error _ => run cfg rest (g, L)
     | .ok g' => run cfg rest (g', liveAfter L st.batch)
 
+/-! ### the point store and the index change stream
+
+`shard/shard.go` (`InsertPoints` / `UpdatePoints` / `DeletePoints`) turns every element of a write batch into an
+`IndexPointChange{NodeId, PreviousData, NewData}`; `shard/index/dispatch.go` + `utils.go` (`getOperation`,
+`preProcessVamana`) turn that into the `IndexVectorChange` the graph consumes — or into nothing.  The index
+schema key is a PATH (`"nested.vector"`): `getOperation` runs `dec.Query(path)` on both documents.  An update
+merges TOP-LEVEL keys only (`existingData[k] = v`, `"_delete"` removes `k`), so the value at a nested path
+changes or disappears whenever an update names the top-level key above it — with a new parent object, a
+sibling only, an empty object, a nil leaf or `"_delete"`.
+
+Documents are kept flattened: one entry per leaf, with its path from the root (a non-empty object is the set
+of the entries below it; `Leaf.obj` is the EMPTY object).  Keys are numbers (the harness sends the key
+bytes). -/
+
+abbrev Key := Nat
+abbrev Path := List Key
+
+/-- a leaf of a decoded document, as far as the shard and the dispatcher look at it -/
+inductive Leaf where
+  | nil                 -- msgpack nil: `getOperation` treats it like an absent field
+  | del                 -- the string "_delete"
+  | vec (tag : Nat)     -- an array of float32 (the tag names the vector)
+  | other               -- any other scalar / array
+  | obj                 -- the empty object {}
+  deriving Repr, DecidableEq
+
+abbrev Doc := List (Path × Leaf)
+
+inductive SErr where
+  | query       -- `dec.Query`: a non-object on the way down ("unsupported code … decoding key")
+  | badVector   -- `castDataToArray`: the property is not an array
+  | pointExists -- "point already exists"
+  deriving Repr, DecidableEq
+
+def strictPrefix (p q : Path) : Bool := p.isPrefixOf q && decide (p.length < q.length)
+
+/-- `dec.Query(path)`; `none`: nothing found, or msgpack nil (`queryResult[0] == nil`) -/
+def query (p : Path) (d : Doc) : Except SErr (Option Leaf) :=
+  match d.find? (fun e => e.1 == p) with
+  | some e => .ok (if e.2 == Leaf.nil then none else some e.2)
+  | none =>
+    if d.any (fun e => strictPrefix p e.1) then .ok (some Leaf.obj)       -- a non-empty object
+    else
+      match d.find? (fun e => strictPrefix e.1 p) with
+      | some e => if e.2 == Leaf.obj then .ok none else .error .query      -- walking into {} / into a scalar
+      | none => .ok none
+
+/-- "the point's document has the field" (what the property calls a point that has the vector field) -/
+def hasField (vp : Path) (d : Doc) : Bool :=
+  match query vp d with
+  | .ok (some _) => true
+  | _ => false
+
+/-- the merge loop of `UpdatePoints`: `for k, v := range incomingData { if v == "_delete" { delete(existing, k) }
+else { existing[k] = v } }` -/
+def mergeDoc (old inc : Doc) : Doc :=
+  old.filter (fun e => !inc.any (fun f => f.1.head? == e.1.head?)) ++
+    inc.filter (fun f => !(f.1.length == 1 && f.2 == Leaf.del))
+
+/-- the points bucket: node id ↦ document -/
+abbrev PStore := List (Id × Doc)
+
+def docOf (S : PStore) (i : Id) : Option Doc := (S.find? (fun e => e.1 == i)).map (·.2)
+def putDoc (S : PStore) (i : Id) (d : Doc) : PStore := (i, d) :: S.filter (fun e => e.1 != i)
+def dropDoc (S : PStore) (i : Id) : PStore := S.filter (fun e => e.1 != i)
+
+/-- `IndexVectorChange` with the vector named (`Change` forgets which vector it is) -/
+structure VChange where
+  id : Id
+  vec : Option Nat
+  deriving Repr, DecidableEq
+
+def VChange.toChange (c : VChange) : Change := { id := c.id, hasVector := c.vec.isSome }
+
+/-- `getPropertyFromBytes` (`len(data) == 0` ⇒ nil) -/
+def qv (vp : Path) : Option Doc → Except SErr (Option Leaf)
+  | none => .ok none
+  | some d => query vp d
+
+/-- `getOperation` + `preProcessVamana`: what the vector index on path `vp` is told about one point change
+(`none`: `opSkip`, the index is not told anything) -/
+def changeOf (vp : Path) (i : Id) (prev cur : Option Doc) : Except SErr (Option VChange) :=
+  match qv vp prev with
+  | .error e => .error e
+  | .ok a =>
+    match qv vp cur with
+    | .error e => .error e
+    | .ok none => .ok (if a.isSome then some { id := i, vec := none } else none)
+    | .ok (some (Leaf.vec t)) => .ok (some { id := i, vec := some t })
+    | .ok (some _) => .error .badVector
+
+/-- one element of a write batch, by node id (the uuid ↦ node id map and the id allocator are C01's) -/
+inductive POp where
+  | ins (i : Id) (doc : Doc)
+  | upd (i : Id) (inc : Doc)
+  | del (i : Id)
+  deriving Repr
+
+def POp.id : POp → Id
+  | .ins i _ => i
+  | .upd i _ => i
+  | .del i => i
+
+/-- the transform function of `InsertPoints` / `UpdatePoints` / `DeletePoints` followed by the dispatcher -/
+def pstep (vp : Path) (S : PStore) : POp → Except SErr (PStore × Option VChange)
+  | .ins i doc =>
+    match docOf S i with
+    | some _ => .error .pointExists
+    | none =>
+      match changeOf vp i none (some doc) with
+      | .error e => .error e
+      | .ok c => .ok (putDoc S i doc, c)
+  | .upd i inc =>
+    match docOf S i with
+    | none => .ok (S, none)                              -- "updating non-existing points is a no-op"
+    | some old =>
+      match changeOf vp i (some old) (some (mergeDoc old inc)) with
+      | .error e => .error e
+      | .ok c => .ok (putDoc S i (mergeDoc old inc), c)
+  | .del i =>
+    match docOf S i with
+    | none => .ok (S, none)
+    | some old =>
+      match changeOf vp i (some old) none with
+      | .error e => .error e
+      | .ok c => .ok (dropDoc S i, c)
+
+/-- a whole batch, in order (a point named twice sees the document left by its first element) -/
+def pbatch (vp : Path) : List POp → PStore → Except SErr (PStore × List VChange)
+  | [], S => .ok (S, [])
+  | o :: rest, S =>
+    match pstep vp S o with
+    | .error e => .error e
+    | .ok (S1, c) =>
+      match pbatch vp rest S1 with
+      | .error e => .error e
+      | .ok (S2, cs) => .ok (S2, c.toList ++ cs)
+
+/-- does point `i` exist and carry the field -/
+def fld (vp : Path) (S : PStore) (i : Id) : Bool :=
+  match docOf S i with
+  | some d => hasField vp d
+  | none => false
+
+/-- `L` of `WF`, read off the points bucket: node ids of the live points whose document has the field -/
+def fieldIds (vp : Path) (S : PStore) : List Id := (S.filter (fun e => hasField vp e.2)).map (·.1)
+
+/-- the vector the document of `i` carries at `vp` -/
+def docVec (vp : Path) (S : PStore) (i : Id) : Option Nat :=
+  match docOf S i with
+  | some d => match query vp d with
+    | .ok (some (Leaf.vec t)) => some t
+    | _ => none
+  | none => none
+
+/-- the vectors the index holds after consuming a change stream (`vecStore.Set` on insert / re-insert,
+`vecStore.Delete`; the last change of a point wins) -/
+def vecsAfter (T : Id → Option Nat) : List VChange → Id → Option Nat
+  | [], i => T i
+  | c :: rest, i => vecsAfter (fun j => if j = c.id then c.vec else T j) rest i
+
+/-- one write request to the shard: the batch, with the oracles of the index run it triggers -/
+structure SStep (D : Type) where
+  ds : Dists D
+  ord : List Id
+  ops : List POp
+
+/-- a history of write requests on the shard: the points bucket and the graph move together; a request
+rejected by the points bucket / the dispatcher or by the index leaves BOTH unchanged (one bbolt transaction,
+rolled back; the shared cache is scrapped) -/
+def shardRun {D : Type} [LT D] [DecidableRel (α := D) (· < ·)] (cfg : Cfg) (vp : Path) :
+    List (SStep D) → PStore × Graph → PStore × Graph
+  | [], s => s
+  | st :: rest, (S, g) =>
+    match pbatch vp st.ops S with
+    | .error _ => shardRun cfg vp rest (S, g)
+    | .ok (S', cs) =>
+      match apply cfg st.ds st.ord g (cs.map VChange.toChange) with
+      | .error _ => shardRun cfg vp rest (S, g)
+      | .ok g' => shardRun cfg vp rest (S', g')
+
 end Sema.C10
